@@ -7,8 +7,10 @@ import time
 import traceback
 
 VERIF = os.path.dirname(os.path.dirname(os.path.abspath(__file__)))
-EVIDENCE = os.path.join(VERIF, "evidence")
-REPLAY = os.path.join(VERIF, "replay")
+# VERIF_OUT redirects what a run writes (used by tools/xmatrix.py to run many trees side by side); registered commands never set it
+OUT = os.environ.get("VERIF_OUT") or VERIF
+EVIDENCE = os.path.join(OUT, "evidence")
+REPLAY = os.path.join(OUT, "replay")
 FINDINGS = os.path.join(VERIF, "findings", "known_findings.json")
 
 
